@@ -160,6 +160,16 @@ CHECKS = {
         design_ref="3 C02",
         technique="CrossHair (z3) on real functions with symbolic strings; differential (metamorphic) harness with symbolic case bits over an engine stub; replay on the real stack",
     ),
+    "C11": dict(
+        category="translation_validation",
+        text="Translation validation of the semi-structured rewrites: symbolic object keys (unicode, length-bounded) and array indices through "
+        "the real path-building transform (CrossHair); the ARRAY_SIZE wrapper as an SMT lemma over an axiomatised json_array_length; the "
+        "operator chosen (->> vs ->), its parenthesisation, the pairs kept by OBJECT_CONSTRUCT and the FLATTEN / type rewrites for symbolic "
+        "choices of outer operation, cast target, path form, operator context and NULL placement, read off the SQL reaching the engine.  "
+        "What DuckDB computes for those operators is trusted; six defects found this way are listed findings.",
+        design_ref="3 C11",
+        technique="CrossHair (z3) on real transforms with symbolic leaves; z3 query for the CASE wrapper; structural validation of emitted SQL over symbolic choices; replay on the real stack",
+    ),
 }
 
 NOT_YET = "not claimed yet: check not built in this round (see DESIGN.md 7 for the order of work)"
